@@ -256,7 +256,12 @@ func genFilterCase(t *rapid.T) FilterCase {
 // pure differential
 
 func runFilterCase(c FilterCase) []ev.Violation {
-	rec.Eval(1)
+	// every lookup is one judged input (non-trivial lookups are counted per lookup too)
+	if n := len(c.Lookups); n > 0 {
+		rec.Eval(n)
+	} else {
+		rec.Eval(1)
+	}
 	var vs []ev.Violation
 	long := filter.NewGlobFilter()
 	seen := memoKeys{}
